@@ -42,7 +42,9 @@ RULE = (
     "unloaded machine, so a run explores the same cases every time; under load it explores a prefix of them.  After the random phase, "
     "directed enumerations: control-character texts, and (phase 4) 9 FIXED cursor widgets (SelectableIcon at 6 cursor positions, Button, "
     "CheckBox, RadioButton) clipped by Padding(width='clip', 5 alignments, with/without left/right) at 11 widths from 1 to 40 and by "
-    "Overlay(width='pack', 5 alignments) at 12 box sizes, rendered with focus, judged by the ordinary clauses plus the cursor-cell clause."
+    "Overlay(width='pack', 5 alignments) at 12 box sizes, rendered with focus, judged by the ordinary clauses plus the cursor-cell clause; "
+    "(phase 5) ScrollBar (left/right, 1-2 columns) around a Scrollable scrolled to 16 (quick) / 42 (thorough) positions from 0 to beyond the "
+    "end over texts of equal words, at 10 box sizes around the word length (the text wraps differently at maxcol and maxcol - bar width)."
 )
 ASSUMES = [
     "directed phase 4 only (a FIXED widget with a cursor clipped by Padding(width='clip') / Overlay(width='pack')): the character under the widget's own cursor is unique in its text, so when that character is visible in the clipping parent's canvas the canvas cursor, if present, must be on that cell; 'cursor outside although its cell is visible' is the C01 cursor clause for the visible part (kept apart from the known 'cursor left outside after its cell was clipped away' lines), 'cursor on another cell' goes one step beyond the statement and is reported under its own signature",
@@ -67,6 +69,7 @@ REQUIRE = {
     "clause_content_rows": 20000,
     "clause_cursor_inside": 300,
     "clause_clip_cursor_cell_visible": 300,
+    "directed_scrolled_bar_trees": 100,
     "skipped_invalid": 1,
     "directed_control_text_trees": 50,
     "mode:utf8": 100,
@@ -132,10 +135,19 @@ class Env:
         self.m1.mode = mode
 
 
+# Directed phase 6 only: warning classes that cannot describe the generated tree because the recipe contains no widget of
+# that class -- they come from containers a bundled class builds internally (LineBox's Columns / Pile) and say nothing
+# about the validity of the user's tree.  Empty everywhere else: the random phases keep the plain filter.
+INTERNAL_WARNINGS: set = set()
+
+
 def _widget_warning(ws):
     from urwid.widget.widget import WidgetWarning
 
-    return [x for x in ws if isinstance(x.category, type) and issubclass(x.category, WidgetWarning)]
+    return [
+        x for x in ws
+        if isinstance(x.category, type) and issubclass(x.category, WidgetWarning) and x.category.__name__ not in INTERNAL_WARNINGS
+    ]  # fmt: skip
 
 
 def build_tree(env, recipe):
@@ -516,6 +528,8 @@ def report(env, recipe, f, history=()):
     wit = {"mode": env.mode, "recipe": recipe, "size": list(f.root_size), "focus": f.root_focus}
     if history:
         wit["history"] = [[list(s), fo] for s, fo in history]
+    if INTERNAL_WARNINGS:
+        wit["ignore_warnings"] = sorted(INTERNAL_WARNINGS)
     call = {0: "pack((), {0}); w.render((), {0})", 1: "rows({1}, {0}); w.render({1}, {0})", 2: "render({1}, {0})"}[len(f.root_size)]
     standalone = (
         f"import urwid; urwid.util.set_encoding({T.ENCODINGS[env.mode]!r}); "
@@ -656,6 +670,45 @@ def drive_clip_cursor(env, recipe, mode, sizes, seen_prekeys, max_per_prekey):
             wit = {"mode": mode, "recipe": recipe, "size": list(size), "focus": True, "clause": "clip-cursor"}
             code = f"import urwid; urwid.util.set_encoding({T.ENCODINGS[mode]!r}); w = {T.to_code(recipe)}; w.render({tuple(size)!r}, True).cursor"
             ctx.violation(sig, f"{msg}\n  replay: {code}", wit)
+
+
+# ---------------------------------------------------------------- directed phase 5: a scrolled Scrollable under a ScrollBar
+
+
+def scrolled_bar_cases(quick):
+    """(recipe, sizes): ScrollBar (either side, 1-2 columns) around a Scrollable that has been scrolled (the recipe's
+    'scrollpos' is applied with set_scrollpos() at build time; render clamps it) over a text of equal words, so that the
+    text wraps into more rows at maxcol - bar width than at maxcol; box sizes around the word length."""
+    positions = (0, 1, 2, 3, 5, 6, 7, 8, 11, 12, 13, 17, 23, 24, 30, -1) if quick else (*range(0, 41), -1)
+    for word, n in (("abcdef", 12), ("abcd", 9)):
+        text = {"t": "Text", "text": " ".join([word] * n), "align": "left", "wrap": "space"}
+        L = len(word)
+        sizes = [(c, r) for c in (L - 1, L, L + 1, L + 2, 2 * L + 1) for r in (3, 8)]
+        for side in ("right", "left"):
+            for width in (1, 2):
+                for pos in positions:
+                    inner = {"t": "Scrollable", "c": [text], "scrollpos": pos}
+                    yield {"t": "ScrollBar", "thumb": "#", "trough": ".", "side": side, "width": width, "c": [inner]}, sizes
+
+
+# ---------------------------------------------------------------- directed phase 6: LineBox around FIXED-capable widgets
+
+
+def linebox_fixed_cases():
+    """LineBox around widgets that are only FIXED (BigText) or BOX/FIXED (Overlay with a pack-sized top) or FLOW/FIXED (Text):
+    LineBox.sizing() reports the sizing of what it wraps, the decoration is built from Columns / Pile."""
+    big = {"t": "BigText", "text": "12", "font": "Thin3x3Font"}
+    txt = {"t": "Text", "text": "ab", "align": "left", "wrap": "space"}
+    ov = {
+        "t": "Overlay", "align": "left", "valign": "top", "width": "pack", "height": "pack", "min_width": None, "min_height": None,
+        "left": 0, "right": 0, "top": 0, "bottom": 0, "c": [txt, {"t": "SolidFill", "ch": "."}],
+    }  # fmt: skip
+    for child in (big, txt, ov):
+        for title in ("", "t"):
+            for off in ([], ["t", "b"]):
+                if title and "t" in off:
+                    continue
+                yield {"t": "LineBox", "title": title, "title_align": "center", "off": off, "c": [child]}
 
 
 def drive_tree(env, recipe, mode, sizes_for, seen_prekeys, max_per_prekey):
@@ -830,6 +883,27 @@ def run(ctx):
                     continue
                 drive_clip_cursor(env, recipe, mode, sizes, seen_prekeys, max_per_prekey)
                 ctx.count("directed_clip_cursor_trees")
+        # 5. directed: ScrollBar around a Scrollable that is not at position 0 (fresh trees are never scrolled otherwise)
+        j = 0
+        for recipe, sizes in scrolled_bar_cases(ctx.quick):
+            j += 1
+            if not ctx.mine(j):
+                continue
+            drive_tree(env, recipe, "utf8", lambda smode, sizes=sizes: sizes if smode == "box" else [], seen_prekeys, max_per_prekey)
+            ctx.count("directed_scrolled_bar_trees")
+        # 6. directed: LineBox around FIXED-capable widgets; warnings of classes that do not occur in the recipe come from
+        #    LineBox's own Columns / Pile and do not make the tree invalid
+        j = 0
+        for recipe in linebox_fixed_cases():
+            j += 1
+            if not ctx.mine(j):
+                continue
+            INTERNAL_WARNINGS.update({"ColumnsWarning", "PileWarning"} - {c + "Warning" for c in T.classes_in(recipe)})
+            try:
+                drive_tree(env, recipe, "utf8", lambda smode: SIZES[smode], seen_prekeys, max_per_prekey)
+            finally:
+                INTERNAL_WARNINGS.clear()
+            ctx.count("directed_linebox_fixed_trees")
     finally:
         env.m1.uninstall()
         urwid.util.set_encoding(old_enc)
@@ -852,6 +926,8 @@ def replay(ctx, wit):
         env.set_mode(wit["mode"])
         recipe = wit["recipe"]
         size, focus = tuple(wit["size"]), bool(wit["focus"])
+        INTERNAL_WARNINGS.clear()
+        INTERNAL_WARNINGS.update(wit.get("ignore_warnings", []))
         if wit.get("clause") == "clip-cursor":
             got = check_clip_cursor(env, recipe, size)
             if got:
